@@ -40,6 +40,10 @@ type drawCell struct {
 	style StyleF
 	fill  bool // content last written by Fill (diagnostics only: named in the finding message)
 	set   bool // the application has stored content here (SetContent or Fill) since the cell came into being
+	// fillSub: Fill stored a rune here that the library keeps as a blank (zero-width / control / invalid primary rune), and
+	// the application has since stored that same rune with the same style again through SetContent: for the application
+	// nothing changed, for the library the stored rune changed from the substituted blank to the rune itself
+	fillSub bool
 }
 
 // byFill: a note appended to a finding's message when the cell's content was stored by Fill; the judgement itself
@@ -706,7 +710,11 @@ func execDraw(line string) (res h.Result) {
 				}
 				before := dispRow(y)
 				old := *c
-				*c = drawCell{m, comb, st, false, true}
+				*c = drawCell{main: m, comb: comb, style: st, set: true}
+				if (old.fill || old.fillSub) && old.main == m && len(comb) == 0 && len(old.comb) == 0 && old.style == st && mustBeBlank(m) {
+					c.fillSub = true
+					tags["fill-substituted-rune-restored"] = true
+				}
 				// C13 "only cells whose rune, combining runes or style changed, plus the columns covered or uncovered by a
 				// changed wide rune": the cell itself when the store changed its content (a first store counts as a change),
 				// and every column of the row whose displayed appearance this store changed (see dispRow).  A store of
@@ -745,7 +753,7 @@ func execDraw(line string) (res h.Result) {
 					if ns.Bg == ColorNoneU {
 						ns.Bg = c.style.Bg
 					}
-					*c = drawCell{r, nil, ns, true, true}
+					*c = drawCell{main: r, style: ns, fill: true, set: true}
 				}
 			}
 			markAllChanged()
@@ -849,8 +857,12 @@ func execDraw(line string) (res h.Result) {
 							continue
 						}
 						if len(res.Findings) < 4 {
-							res.Findings = append(res.Findings, h.Finding{Class: "unchanged-cell-written", Msg: fmt.Sprintf(
-								"cell (%d,%d) was written by the Show of op %d (block %d) although it had not changed since the previous draw (locked=%v)", x, y, i, block, sh.locked[k])})
+							cls := "unchanged-cell-written"
+							if get(x, y).fillSub {
+								cls = "unchanged-cell-written:fill-substitution"
+							}
+							res.Findings = append(res.Findings, h.Finding{Class: cls, Msg: fmt.Sprintf(
+								"cell (%d,%d) was written by the Show of op %d (block %d) although it had not changed since the previous draw (locked=%v)%s", x, y, i, block, sh.locked[k], get(x, y).byFill())})
 						}
 					}
 				}
@@ -1119,7 +1131,11 @@ func execDraw(line string) (res h.Result) {
 						tags["orphan-half-erased"] = true
 						continue
 					}
-					addF("unchanged-cell-written", "cell (%d,%d) was last written in block %d although it had not changed before that draw (locked=%v)", x, y, ec.stamp, sh.locked[k])
+					cls := "unchanged-cell-written"
+					if get(x, y).fillSub {
+						cls = "unchanged-cell-written:fill-substitution"
+					}
+					addF(cls, "cell (%d,%d) was last written in block %d although it had not changed before that draw (locked=%v)", x, y, ec.stamp, sh.locked[k])
 				}
 			}
 		}
